@@ -69,10 +69,27 @@ Definition lits_unequal (d : sdesc) : bool :=
 Definition is_member (md : mods) (h : hir) (mem : list N) (o l : N) : bool :=
   let (a, w) := members_at md h mem o in mem_N l a || mem_N l w.
 
+(* an empty literal is legitimate only when the pattern itself has an empty alternation branch *)
+Fixpoint emptyish (h : hir) : bool :=
+  match h with
+  | HEmpty => true
+  | HGroup h' => emptyish h'
+  | HConcat l => (fix go (l : list hir) : bool := match l with [] => true | x :: r => emptyish x && go r end) l
+  | _ => false
+  end.
+Fixpoint has_empty_alt (h : hir) : bool :=
+  match h with
+  | HAlt l => (fix go (l : list hir) : bool := match l with [] => false | x :: r => emptyish x || has_empty_alt x || go r end) l
+  | HConcat l => (fix go (l : list hir) : bool := match l with [] => false | x :: r => has_empty_alt x || go r end) l
+  | HGroup h' | HRep h' _ _ => has_empty_alt h'
+  | _ => false
+  end.
+
 Definition kf_alt_glue (d : sdesc) (h : hir) (mem : list N) : bool :=
   match s_kind d, s_pre d with
   | KNonGreedy, Some _ | KGreedy, Some _ =>
       lits_unequal d
+      && (forallb (fun l : list N => nonempty l) (s_lits d) || has_empty_alt h)
       && existsb (fun ol => negb (is_member (s_mods d) h mem (fst ol) (snd ol)))
                  (ac_scan false d mem default_max_nb)
   | _, _ => false
